@@ -232,14 +232,14 @@ def check_entry(rep, proj):
     parent = S.record("pdf", xfxQ2=S._NativeFn(xfx), hasFlavor=S._NativeFn(lambda pid: True), marker="PARENT")
     xm = m_cls.find_method("xfxQ2")
     try:
-        masked = ev.instantiate(S.ClassVal(ev, m_cls), [parent, [21, 1, -1]], {})
+        masked = ev.instantiate(S.ClassVal(ev, m_cls), [parent, [21, 1, -2]], {})  # a quark without its antiquark and vice versa
         x, q2 = A.sym("xB", True), A.sym("Q2", True)
         problems = []
-        for pid in (21, 1, -1):
+        for pid in (21, 1, -2):
             v = ev.call(ev.getattr(masked, "xfxQ2", None), [pid, x, q2], {})
             if A.canon(S.num_norm(v)) != A.canon(A.opaque("xf", (pid, x, q2))):
                 problems.append(f"active pid {pid}: {A.canon(S.num_norm(v))[:60]}")
-        for pid in (2, -2, 5, 22):
+        for pid in (2, -1, 5, 22):
             v = S.num_norm(ev.call(ev.getattr(masked, "xfxQ2", None), [pid, x, q2], {}))
             if isinstance(v, A.Rat) or v != 0:
                 problems.append(f"masked pid {pid} gives {v}")
